@@ -147,6 +147,7 @@ class _ParseTreeProcessor(parsimonious.NodeVisitor):
         self._comment = ""
         self._comment_is_header = True
         self._last_attribute_line_number = 0  # The line of the attribute statement that awaits its doc comment.
+        self._line_breaks_inside_literals = 0  # Seen on the current line, see _visit_literal_string().
         self._strict = bool(strict)
         super().__init__()
 
@@ -181,7 +182,8 @@ class _ParseTreeProcessor(parsimonious.NodeVisitor):
             self._flush_comment()
 
     def visit_end_of_line(self, _n: _Node, _c: _Children) -> None:
-        self._current_line_number += 1
+        self._current_line_number += 1 + self._line_breaks_inside_literals
+        self._line_breaks_inside_literals = 0
 
     # ================================================== Statements ==================================================
 
@@ -444,10 +446,18 @@ class _ParseTreeProcessor(parsimonious.NodeVisitor):
         return _expression.Boolean(False)
 
     def visit_literal_string_single_quoted(self, node: _Node, _c: _Children) -> _expression.String:
-        return _parse_string_literal(node.text)
+        return self._visit_literal_string(node)
 
     def visit_literal_string_double_quoted(self, node: _Node, _c: _Children) -> _expression.String:
-        return _parse_string_literal(node.text)
+        return self._visit_literal_string(node)
+
+    def _visit_literal_string(self, node: _Node) -> _expression.String:
+        out = _parse_string_literal(node.text)
+        # The grammar lets a string literal contain raw line breaks; they are not end_of_line nodes, so they are
+        # counted here and added at the end of the line: the statement itself keeps the number of its first line
+        # and the following statements get the right ones.
+        self._line_breaks_inside_literals += node.text.count("\n")
+        return out
 
 
 #
